@@ -473,6 +473,7 @@ pub fn format_var(name: &str, value: f64, is_first: bool) -> String {
     } else {
         value.abs().to_string()
     };
+    let name = crate::parser::il::il_exp::written_name(name);
     format!("{}{}{}", sign, num, name)
 }
 
